@@ -90,6 +90,25 @@ def r1_agreement(ck, cx):
         diffs = match_decode(rs, s, cx.nz(fn.mod, k), dict(entry.get('inv') or {}, __min_record__=entry.get('min_record', 1)))
         if len(ck.samples) < 8:
             ck.sample({'class': k.name, 'encode': show(got)[:140], 'decode-reads': [repr(r) for r in s.reads][:8]})
+        # the other direction: a leading fixed field that decode() stores in attribute A is written by encode() from A --
+        # an encode() that emits its own constant there (or resets A first) loses what was decoded
+        import re as _re
+        from ..sym import Poly as _Poly
+        from ..pdumatch import _isz
+        off = 0
+        for it in got:
+            if it[0] != 'F':
+                break
+            rd = [r for r in s.reads if r.loop is None and r.off == _Poly.const(off) and r.fmt.lstrip('<>!=') == it[1].lstrip('<>!=')]
+            if rd:
+                attrs = [a for a, vals in s.assigns.items() if any(v == rd[0].rid for v, _lp in vals)]
+                for a in attrs:
+                    ck.ob('R1', '%s / %s' % (enc.qn, dec.qn.split('.')[-2] + '.decode'), 'field at offset %d, decoded into self.%s, is encoded from self.%s (or derived from the message), not from a constant' % (off, a, a),
+                          bool(_re.search(r'\bself\.%s\b' % _re.escape(a), str(it[2]))) or 'self.' in str(it[2]),
+                          detail='encode-ignores-decoded %s@%d' % (a, off), loc=cx.floc(enc),
+                          message='%s: decode() stores the field at offset %d in self.%s but encode() writes `%s` there: decode followed by encode does not give the bytes back'
+                                  % (k.name, off, a, it[2]))
+            off += _isz(it[1])
         ck.ob('R1', '%s / %s' % (enc.qn, dec.qn.split('.')[-2] + '.decode'), 'decode reads what encode writes', not diffs,
               detail='asymmetric ' + '; '.join(d[0] for d in diffs), loc=cx.floc(dec),
               message='%s: encode writes `%s` but %s' % (k.name, show(got)[:160], ' | '.join(d[1] for d in diffs)))
@@ -245,6 +264,90 @@ def r4_reclass(ck, cx):
         ck.ob('R4', h.qn, 'sub-function dispatch re-classes the decoded message', len(sets) == 1, detail='no-reclass', loc=cx.floc(h))
 
 
+def _may_be_default(e, param):
+    """can expression e evaluate to the very object bound to `param` when param is its (empty, mutable, not-None) default?"""
+    def truth(t):
+        # truth value of a test under param = empty mutable default; None = unknown
+        if isinstance(t, ast.Name) and t.id == param:
+            return False
+        if isinstance(t, ast.UnaryOp) and isinstance(t.op, ast.Not):
+            v = truth(t.operand)
+            return None if v is None else (not v)
+        if isinstance(t, ast.Compare) and len(t.ops) == 1 and isinstance(t.left, ast.Name) and t.left.id == param \
+                and isinstance(t.comparators[0], ast.Constant) and t.comparators[0].value is None:
+            if isinstance(t.ops[0], (ast.Is, ast.Eq)):
+                return False
+            if isinstance(t.ops[0], (ast.IsNot, ast.NotEq)):
+                return True
+        if isinstance(t, ast.Call) and isinstance(t.func, ast.Name) and t.func.id == 'len' and t.args and isinstance(t.args[0], ast.Name) \
+                and t.args[0].id == param:
+            return False
+        return None
+    if isinstance(e, ast.Name):
+        return e.id == param
+    if isinstance(e, ast.BoolOp):
+        if isinstance(e.op, ast.Or):
+            for v in e.values[:-1]:
+                tv = truth(v)
+                if tv is True:
+                    return _may_be_default(v, param)
+                if tv is None and _may_be_default(v, param):
+                    return True
+            return _may_be_default(e.values[-1], param)
+        for v in e.values[:-1]:        # And: the first falsy operand is the value
+            tv = truth(v)
+            if tv is False:
+                return _may_be_default(v, param)
+            if tv is None and _may_be_default(v, param):
+                return True
+        return _may_be_default(e.values[-1], param)
+    if isinstance(e, ast.IfExp):
+        tv = truth(e.test)
+        if tv is True:
+            return _may_be_default(e.body, param)
+        if tv is False:
+            return _may_be_default(e.orelse, param)
+        return _may_be_default(e.body, param) or _may_be_default(e.orelse, param)
+    return False
+
+
+def r5_no_shared_default_state(ck, cx, rule='R5'):
+    """a message object must not keep a reference to a mutable default argument: that one object is shared by every
+    instance built without the argument (the decoders build all messages that way), so what one decode appends
+    shows up in every later message"""
+    ck.rule(rule, 'message constructors do not store a mutable default argument ([] / {} / set()) in the instance')
+    from .c01 import all_codec_classes
+    seen, n = set(), 0
+    for k, _spec, _role in all_codec_classes(cx):
+        for c in cx.idx.mro(k):
+            init = c.methods.get('__init__')
+            if init is None or init.qn in seen:
+                continue
+            seen.add(init.qn)
+            a = init.node.args
+            pos = a.posonlyargs + a.args
+            muts = {}
+            for arg, d in list(zip(pos[len(pos) - len(a.defaults):], a.defaults)) + [(x, y) for x, y in zip(a.kwonlyargs, a.kw_defaults) if y is not None]:
+                if isinstance(d, (ast.List, ast.Dict, ast.Set)) or (isinstance(d, ast.Call) and isinstance(d.func, ast.Name)
+                                                                      and d.func.id in ('list', 'dict', 'set', 'bytearray') and not d.args):
+                    muts[arg.arg] = d
+            n += 1
+            if not muts:
+                continue
+            from ..common import annotate
+            for p in cx.enum(init, c, max_depth=1):
+                annotate(p, heap=False)
+                for ev in p.ev:
+                    v = getattr(ev, '_sub', None)
+                    if ev.kind == 'assign' and isinstance(ev.a, ast.Attribute) and ev.frame.fid == 0 and U(ev.a.value) == 'self' and v is not None:
+                        for prm in muts:
+                            ck.ob(rule, init.qn, 'self.%s does not alias the mutable default of `%s`' % (ev.a.attr, prm), not _may_be_default(v, prm),
+                                  detail='mutable-default-stored %s=%s' % (ev.a.attr, prm), loc=cx.floc(init, ev.node),
+                                  message='%s stores its default argument %s=%s in self.%s: every message built without that argument shares one object, '
+                                          'so decoded values leak from one message into the next' % (init.qn, prm, U(muts[prm]), ev.a.attr))
+    ck.floor(rule, n, 40, 'message constructors examined')
+
+
 def r4_dispatch_reaches_every_code(ck, cx):
     """decode(encode(m)) gives back the class of m only if the sub-function dispatch is reached for every
     sub-function code, 0 included (shared with C01 R4)"""
@@ -266,5 +369,6 @@ def run(ck, tier):
     ck.guard(r2_r3_purity, ck, cx)
     ck.guard(r4_reclass, ck, cx)
     ck.guard(r4_dispatch_reaches_every_code, ck, cx)
+    ck.guard(r5_no_shared_default_state, ck, cx)
     ck.assume('equality of values through struct is trusted; bit lists round-trip up to zero padding as a consequence of pack_bitstring/unpack_bitstring (trusted base)')
     return cx.idx
